@@ -233,6 +233,24 @@ pub fn mutate_text(base: &str, rng: &mut Rng) -> String {
             3 => base.replace('\n', "\r\n"),
             4 => base.replace('\n', "\r"),
             5 => base.replace(' ', "\t"),
+            6 | 7 => {
+                // an array size, list bound or fold bound (a number behind `;` or `,`) replaced
+                // by an edge value: zero, one, no power of two, leading zeros, just too big
+                let mut ts = lex(base);
+                let sizes: Vec<usize> = (1..ts.len())
+                    .filter(|k| ts[*k].kind == TokKind::Number)
+                    .filter(|k| {
+                        ts[..*k].iter().rev().find(|t| !t.text.trim().is_empty()).map_or(false, |t| t.text == ";" || t.text == ",")
+                    })
+                    .collect();
+                if sizes.is_empty() {
+                    mutate_tokens(&mut ts, rng);
+                } else {
+                    let k = *rng.pick(&sizes);
+                    ts[k].text = rng.pick(&["0", "1", "2", "3", "00", "01", "0_2", "2_", "6", "65536", "65537", "18446744073709551615", "18446744073709551616"]).to_string();
+                }
+                unlex(&ts)
+            }
             _ => {
                 let mut ts = lex(base);
                 let n = 1 + rng.below(3);
